@@ -63,6 +63,7 @@ def plan(tier, seed):
     for i in range(nshard):
         shards.append(dict(kind='walk', seed=seed * 1000 + i, n=n // nshard, length=length, cfg=list(CFGS)[i % 3]))
         shards.append(dict(kind='walk', seed=seed * 1000 + 500 + i, n=n // nshard, length=length, cfg=list(CFGS)[i % 3], fuzz=200 if tier == 'quick' else 2000))
+        shards.append(dict(kind='walk', seed=seed * 1000 + 700 + i, n=n // nshard, length=length, cfg=list(CFGS)[i % 3], opens=150 if tier == 'quick' else 1500))
     return shards
 
 
@@ -104,6 +105,9 @@ def run_shard(sh):
         if sh.get('fuzz'):
             # UPDATE / NOTIFICATION / ROUTE-REFRESH frames with mutated bodies among the peer's messages
             alpha = ['OPEN', 'OPEN_h9', 'KA', 'KA', 'UPD1', 'NOTI_CEASE'] + S.fuzz_alphabet_typed(rng, sh['fuzz'])
+        if sh.get('opens'):
+            # peer OPENs from a grammar: capability sets, packagings, hold times, AS forms, one problem at most
+            alpha = ['KA', 'KA', 'KA', 'UPD1', 'NOTI_CEASE', 'RR'] + S.open_alphabet(rng, sh['opens'])
         for i in range(sh['n']):
             if budget.expired():
                 break
